@@ -20,9 +20,63 @@ type comparison =
 
 val compOpp : comparison -> comparison
 
+type uint =
+| Nil
+| D0 of uint
+| D1 of uint
+| D2 of uint
+| D3 of uint
+| D4 of uint
+| D5 of uint
+| D6 of uint
+| D7 of uint
+| D8 of uint
+| D9 of uint
+
+type uint0 =
+| Nil0
+| D10 of uint0
+| D11 of uint0
+| D12 of uint0
+| D13 of uint0
+| D14 of uint0
+| D15 of uint0
+| D16 of uint0
+| D17 of uint0
+| D18 of uint0
+| D19 of uint0
+| Da of uint0
+| Db of uint0
+| Dc of uint0
+| Dd of uint0
+| De of uint0
+| Df of uint0
+
+type uint1 =
+| UIntDecimal of uint
+| UIntHexadecimal of uint0
+
 val add : nat -> nat -> nat
 
+val mul : nat -> nat -> nat
+
 val sub : nat -> nat -> nat
+
+val tail_add : nat -> nat -> nat
+
+val tail_addmul : nat -> nat -> nat -> nat
+
+val tail_mul : nat -> nat -> nat
+
+val of_uint_acc : uint -> nat -> nat
+
+val of_uint : uint -> nat
+
+val of_hex_uint_acc : uint0 -> nat -> nat
+
+val of_hex_uint : uint0 -> nat
+
+val of_num_uint : uint1 -> nat
 
 type positive =
 | XI of positive
@@ -42,6 +96,8 @@ val eqb : bool -> bool -> bool
 
 module Nat :
  sig
+  val pred : nat -> nat
+
   val sub : nat -> nat -> nat
 
   val eqb : nat -> nat -> bool
@@ -54,11 +110,19 @@ module Nat :
 
   val min : nat -> nat -> nat
 
+  val even : nat -> bool
+
+  val odd : nat -> bool
+
   val divmod : nat -> nat -> nat -> nat -> nat * nat
 
   val div : nat -> nat -> nat
 
   val modulo : nat -> nat -> nat
+
+  val log2_iter : nat -> nat -> nat -> nat -> nat
+
+  val log2 : nat -> nat
  end
 
 module Pos :
@@ -180,6 +244,8 @@ module Z :
 
   val eqb : z -> z -> bool
 
+  val max : z -> z -> z
+
   val min : z -> z -> z
 
   val abs_N : z -> n
@@ -197,6 +263,12 @@ module Z :
   val div_eucl : z -> z -> z * z
 
   val div : z -> z -> z
+
+  val modulo : z -> z -> z
+
+  val quotrem : z -> z -> z * z
+
+  val quot : z -> z -> z
  end
 
 val nth : nat -> 'a1 list -> 'a1 -> 'a1
@@ -212,6 +284,8 @@ val map : ('a1 -> 'a2) -> 'a1 list -> 'a2 list
 val flat_map : ('a1 -> 'a2 list) -> 'a1 list -> 'a2 list
 
 val fold_left : ('a1 -> 'a2 -> 'a1) -> 'a2 list -> 'a1 -> 'a1
+
+val fold_right : ('a2 -> 'a1 -> 'a1) -> 'a1 -> 'a2 list -> 'a1
 
 val existsb : ('a1 -> bool) -> 'a1 list -> bool
 
@@ -256,6 +330,7 @@ type exn =
 | AttributeError
 | ZeroDivisionError
 | RecursionError
+| StopIteration
 | OutOfFuel
 
 type 'a res =
@@ -275,6 +350,10 @@ val str_eqb : str -> str -> bool
 val mem_str : str -> str list -> bool
 
 val mem_N : n -> n list -> bool
+
+val find_char_aux : n -> str -> nat -> nat option
+
+val find_char : n -> str -> nat -> nat option
 
 val slice : str -> nat -> nat -> str
 
@@ -318,6 +397,10 @@ val organic_subset : n list list
 
 val aromatic_subset : n list list
 
+val aromatic_valences : (n list * z list) list
+
+val valence_electrons : (n list * z) list
+
 val index_alphabet : n list list
 
 val index_code : (n list * n) list
@@ -341,6 +424,10 @@ val int_max_str_digits : n
 val decimal_zeros : n list
 
 val isdigit_ranges : (n * n) list
+
+val isnumeric_ranges : (n * n) list
+
+val isalpha_ranges : (n * n) list
 
 val next_atom_state : z -> z -> z -> z * z option
 
@@ -418,6 +505,8 @@ val constraint_key : str -> z -> str
 val get_bonding_capacity : table -> str -> z -> z res
 
 val bonding_capacity : table -> atom -> z res
+
+val invert_chirality : atom -> atom
 
 val is_stereo_char : n -> bool
 
@@ -589,6 +678,412 @@ val decode_graph : table -> str -> bool -> bool -> dmol res
 
 val decoder : table -> str -> bool -> bool -> (str * amap list) res
 
+type slot =
+| SUnused
+| SDummy
+| SKey of nat
+
+type pyset = { ps_table : slot list; ps_mask : nat; ps_fill : nat;
+               ps_used : nat; ps_finger : nat }
+
+val lINEAR_PROBES : nat
+
+val pERTURB_SHIFT_DIV : nat
+
+val pySet_MINSIZE : nat
+
+val ps_empty : pyset
+
+val run_length : nat -> nat -> nat
+
+val next_perturb : nat -> nat
+
+val next_index : nat -> nat -> nat -> nat
+
+type add_scan_result =
+| AUnused of nat * nat option
+| AActive
+| AMore of nat option
+
+val add_scan : slot list -> nat -> nat -> nat -> nat option -> add_scan_result
+
+type add_where =
+| AddNothing
+| AddFresh of nat
+| AddReuse of nat
+
+val add_probe :
+  nat -> slot list -> nat -> nat -> nat -> nat -> nat option -> add_where res
+
+val probe_fuel : nat -> nat -> nat
+
+val clean_scan : slot list -> nat -> nat -> nat option
+
+val clean_probe : nat -> slot list -> nat -> nat -> nat -> nat res
+
+val insert_clean : slot list -> nat -> nat -> slot list res
+
+val grow_size : nat -> nat -> nat -> nat
+
+val reinsert : slot list -> slot list -> nat -> slot list res
+
+val table_resize : pyset -> nat -> pyset res
+
+val ps_add : pyset -> nat -> pyset res
+
+val ps_add_all : pyset -> nat list -> pyset res
+
+val ps_of_list : nat list -> pyset res
+
+val ps_nonempty : pyset -> bool
+
+type look_result =
+| LUnused
+| LFound of nat
+| LMore
+
+val look_scan : slot list -> nat -> nat -> nat -> look_result
+
+val look_probe :
+  nat -> slot list -> nat -> nat -> nat -> nat -> nat option res
+
+val ps_discard : nat -> pyset -> pyset res
+
+val first_key_from : slot list -> nat -> (nat * nat) option
+
+val ps_pop : pyset -> (nat * pyset) res
+
+val ps_keys : slot list -> nat list
+
+type ps_op =
+| OpAdd of nat
+| OpPop
+| OpDiscard of nat
+
+val ps_run :
+  pyset -> ps_op list -> (((nat option * bool) * nat list) list * pyset) res
+
+type graph = nat list list
+
+type matching = nat option list
+
+val get : 'a1 list -> nat -> 'a1 res
+
+val set_at : 'a1 list -> nat -> 'a1 -> 'a1 list res
+
+type hitem = z * nat
+
+val hitem_lt : hitem -> hitem -> bool
+
+val heappush : hitem list -> hitem -> hitem list
+
+val heappop : hitem list -> (hitem * hitem list) option
+
+val heapify : hitem list -> hitem list
+
+val first_unmatched : nat list -> matching -> nat res
+
+val dec_free :
+  nat list -> matching -> z list -> hitem list -> (z list * hitem list) res
+
+val greedy_loop :
+  nat -> graph -> matching -> z list -> hitem list -> matching res
+
+val enum_from : nat -> 'a1 list -> (nat * 'a1) list
+
+val total_adj : graph -> nat
+
+val greedy_fuel : graph -> nat
+
+val greedy_matching : graph -> matching res
+
+type parents_t = (nat option * nat option) option list
+
+val scan_adj :
+  nat list -> nat -> nat -> matching -> parents_t -> nat list ->
+  ((parents_t * nat list) * nat option) res
+
+val bfs :
+  nat -> graph -> nat -> matching -> parents_t -> nat list ->
+  (parents_t * nat option) res
+
+val build_path : nat -> parents_t -> nat -> nat -> nat list -> nat list res
+
+val find_augmenting_path : graph -> nat -> matching -> nat list option res
+
+val flip_augmenting_path : matching -> nat list -> matching res
+
+val augment_loop :
+  ('a1 -> bool) -> ('a1 -> (nat * 'a1) res) -> (nat -> 'a1 -> 'a1 res) -> nat
+  -> graph -> matching -> 'a1 -> matching option res
+
+val unmatched_nodes : matching -> nat list
+
+val find_perfect_matching_with :
+  (nat list -> 'a1 res) -> ('a1 -> bool) -> ('a1 -> (nat * 'a1) res) -> (nat
+  -> 'a1 -> 'a1 res) -> graph -> matching option res
+
+val find_perfect_matching : graph -> matching option res
+
+val greedy_unmatched : graph -> nat res
+
+type ttype =
+| TAtom
+| TBranch
+| TRing
+| TDot
+
+type token = { t_bond : n option; t_start : nat; t_type : ttype; t_text : str }
+
+val c_lpar : n
+
+val c_rpar : n
+
+val c_pct : n
+
+val is_bond_char : n -> bool
+
+val in_sorted_ranges : n -> (n * n) list -> bool
+
+val isalpha_s : n -> bool
+
+val isdigit_s : n -> bool
+
+val isnumeric_s : n -> bool
+
+val str_isnumeric : str -> bool
+
+val tokenize_loop : nat -> str -> nat -> token list res
+
+val tokenize_smiles : str -> token list res
+
+type ebond = { e_src : nat; e_dst : nat; e_order2 : z; e_stereo : n option;
+               e_ring : bool; e_attr : attrs }
+
+type dsub = { ds_keys : nat list; ds_vals : nat list option list }
+
+val ds_empty : dsub
+
+val ds_is_empty : dsub -> bool
+
+val ds_lookup : dsub -> nat -> nat list option
+
+val arr_set : 'a1 option list -> nat -> 'a1 -> 'a1 option list
+
+val ds_store : dsub -> nat -> nat list -> dsub
+
+val ds_set_empty : dsub -> nat -> dsub
+
+val ds_append : dsub -> nat -> nat -> dsub
+
+val ds_items : dsub -> (nat * nat list) list
+
+type emol = { m_attributable : bool; m_roots : nat list;
+              m_atoms : (atom * attrs) list; m_adj : ebond option list list;
+              m_counts2 : z list; m_ringflags : bool list; m_ds : dsub }
+
+val mg_empty : bool -> emol
+
+val mg_len : emol -> nat
+
+val set_atoms : emol -> (atom * attrs) list -> emol
+
+val set_adj : emol -> ebond option list list -> emol
+
+val set_counts2 : emol -> z list -> emol
+
+val set_ringflags : emol -> bool list -> emol
+
+val set_ds : emol -> dsub -> emol
+
+val lget : 'a1 list -> nat -> 'a1 res
+
+val lupd : 'a1 list -> nat -> ('a1 -> 'a1) -> 'a1 list res
+
+val mg_get_atom : emol -> nat -> (atom * attrs) res
+
+val mg_get_out_dirbonds : emol -> nat -> ebond option list res
+
+val mg_get_bond_count2 : emol -> nat -> z res
+
+val mg_has_out_ring_bond : emol -> nat -> bool res
+
+val mg_add_atom : emol -> atom -> bool -> emol * nat
+
+val merge_attr : attrs -> attr list -> attrs
+
+val mg_add_attr_atom : emol -> nat -> attr list -> emol res
+
+val mg_get_attr : emol -> attrs -> attrs
+
+val add_bond_at_loc :
+  ebond option list -> nat option -> ebond -> ebond option list res
+
+val mg_add_bond_at_loc : emol -> ebond -> nat option -> emol res
+
+val mg_add_count2 : emol -> nat -> z -> emol res
+
+val order2_aromatic : z
+
+val mg_add_bond : emol -> nat -> nat -> z -> n option -> attrs -> emol res
+
+val mg_add_placeholder_bond : emol -> nat -> (emol * nat) res
+
+val mg_add_ring_bond :
+  emol -> nat -> nat -> z -> n option -> n option -> nat option -> nat option
+  -> emol res
+
+val find_edge : ebond option list -> nat -> ebond option
+
+val mg_find_dirbond : emol -> nat -> nat -> ebond option
+
+val mg_get_dirbond : emol -> nat -> nat -> ebond res
+
+val mg_has_bond : emol -> nat -> nat -> bool
+
+val with_order2 : ebond -> z -> ebond
+
+val set_edge_order2 : ebond option list -> nat -> z -> ebond option list
+
+val mg_update_bond_order : emol -> nat -> nat -> z -> emol res
+
+type pstate = { p_mol : emol; p_i : nat; p_tok : token option;
+                p_prev : nat option list; p_branch : token list;
+                p_rings : (str * ((token * nat) * nat)) list;
+                p_chain_start : bool }
+
+val attach_atom :
+  emol -> token -> atom -> nat option -> nat -> ((emol * nat) * nat) res
+
+val optN_eqb : n option -> n option -> bool
+
+val make_ring_bonds : emol -> token -> nat -> nat -> token -> nat -> emol res
+
+val ring_log_find :
+  (str * ((token * nat) * nat)) list -> str -> ((token * nat) * nat) option
+
+val ring_log_remove :
+  (str * ((token * nat) * nat)) list -> str -> (str * ((token * nat) * nat))
+  list
+
+val atom_index : nat option -> nat res
+
+val derive_loop : token list -> pstate -> (pstate * token list) res
+
+val derive_mol_from_tokens :
+  emol -> token list -> nat -> ((emol * nat) * token list) res
+
+val fragments_loop : nat -> emol -> token list -> nat -> emol res
+
+val smiles_to_mol : str -> bool -> emol res
+
+val aromatic_valences_of : str -> z list res
+
+val valence_electrons_of : str -> z res
+
+val in_aromatic_valences : str -> bool
+
+val int_of_half : z -> z
+
+val any_eqZ : z -> z list -> bool
+
+val last_valence : z list -> z res
+
+val prune_from_ds : emol -> nat -> bool res
+
+val any_bad_element : emol -> (nat * nat list) list -> bool res
+
+val kept_nodes_of : emol -> nat list -> nat list res
+
+val insert_sorted : nat -> nat list -> nat list
+
+val sort_nat : nat list -> nat list
+
+val label_table : nat -> nat -> nat -> nat list -> nat option list
+
+val relabel : nat option list -> nat list -> nat list
+
+val pruned_ds_of : emol -> nat option list -> nat list -> graph res
+
+val set_single_bonds : emol -> nat -> nat list -> emol res
+
+val clear_aromatic : atom -> atom
+
+val dearomatize : emol -> (nat * nat list) list -> emol res
+
+val set_double_bonds : emol -> nat list -> (nat * nat option) list -> emol res
+
+val kekulize : emol -> emol option res
+
+val pruned_ds : emol -> graph res
+
+val str_of_nat : nat -> str
+
+val ebond_to_smiles : ebond -> str res
+
+val bond_to_selfies : ebond -> bool -> str res
+
+val ring_bonds_to_selfies : ebond -> ebond -> str res
+
+val atom_to_selfies : ebond option -> atom -> str res
+
+val bond_constraint_errors :
+  table -> emol -> (atom * attrs) list -> nat -> bool res
+
+val check_bond_constraints : table -> emol -> unit res
+
+val partition_bonds :
+  ebond option list -> nat -> ((nat list * (nat * nat) list) * nat list) res
+
+val insert_by_dst : (nat * nat) -> (nat * nat) list -> (nat * nat) list
+
+val sort_by_dst : (nat * nat) list -> (nat * nat) list
+
+val count_less : nat -> nat list -> nat
+
+val inversions : nat list -> nat
+
+val should_invert_chirality : emol -> nat -> bool res
+
+val invert_pass :
+  emol -> (atom * attrs) list -> nat -> (atom * attrs) list res
+
+val mk_amap : nat -> str -> attrs -> amap
+
+val maps_for : str list -> nat -> nat -> attrs -> amap list
+
+val shift_amap : nat -> amap -> amap
+
+val all_some : ebond option list -> ebond list res
+
+val ring_bonds_first : ebond list -> ebond list
+
+val out_loop :
+  emol -> (ebond -> nat -> nat -> (str list * amap list) res) -> ebond list
+  -> nat -> nat -> (str list * amap list) res
+
+val fragment_walk :
+  nat -> emol -> ebond option -> nat -> nat -> nat -> (str list * amap list)
+  res
+
+val fragment_to_selfies : emol -> nat -> nat -> (str list * amap list) res
+
+val encode_roots : emol -> nat list -> nat -> (str list * amap list) res
+
+val encode_mol : table -> emol -> bool -> (str * amap list) res
+
+val encoder : table -> str -> bool -> bool -> (str * amap list) res
+
+type mol_dump = { d_atoms : (atom * attrs) list;
+                  d_adj : ((((nat * z) * n option) * bool) * attrs) option
+                          list list; d_roots : nat list; d_counts2 : 
+                  z list; d_ringflags : bool list;
+                  d_ds : (nat * nat list) list }
+
+val dump_mol : emol -> mol_dump
+
+val parse_kekulize : str -> bool -> (mol_dump * mol_dump option res) res
+
 val documented_index_alphabet : str list
 
 val doc_digit : str option -> n
@@ -656,9 +1151,9 @@ val batch_flat_hot_to_selfies : z list list -> (z * str) list -> str list res
 type satom = { sa_elem : str; sa_arom : bool; sa_iso : n option;
                sa_chi : str option; sa_h : n option; sa_charge : z }
 
-type slot = { sl_to : nat; sl_order2 : z; sl_mark : n option; sl_ring : bool }
+type nslot = { sl_to : nat; sl_order2 : z; sl_mark : n option; sl_ring : bool }
 
-type smol = { sm_atoms : satom list; sm_nbrs : slot list list }
+type smol = { sm_atoms : satom list; sm_nbrs : nslot list list }
 
 val is_digit : n -> bool
 
@@ -685,12 +1180,12 @@ val read_chi : str -> str option * str
 val parse_bracket : str -> satom option
 
 type stok =
-| TAtom of satom
-| TBond of z * n option
-| TOpen
-| TClose
-| TDot
-| TRing of n
+| RAtom of satom
+| RBond of z * n option
+| ROpen
+| RClose
+| RDot
+| RRing of n
 
 val split_at_rb : str -> (str * str) option
 
@@ -698,12 +1193,12 @@ val plain : str -> bool -> satom
 
 val lex_smiles : nat -> str -> stok list option
 
-type rstate = { r_atoms : satom list; r_nbrs : slot option list list;
+type rstate = { r_atoms : satom list; r_nbrs : nslot option list list;
                 r_prev : nat option; r_stack : nat option list;
                 r_pend : (z * n option) option;
                 r_open : (n * ((nat * nat) * (z * n option) option)) list }
 
-val set_slot : slot option list -> nat -> slot -> slot option list
+val set_slot : nslot option list -> nat -> nslot -> nslot option list
 
 val lookupN : n -> (n * 'a1) list -> 'a1 option
 
@@ -715,7 +1210,7 @@ val step : rstate -> stok -> rstate option
 
 val steps : rstate -> stok list -> rstate option
 
-val all_some : 'a1 option list -> 'a1 list option
+val all_some0 : 'a1 option list -> 'a1 list option
 
 val all_some_rows : 'a1 option list list -> 'a1 list list option
 
@@ -735,7 +1230,7 @@ val cap_key : satom -> str
 
 val capacity : (str * z) list -> satom -> z option
 
-val bond_sum2 : slot list -> z
+val bond_sum2 : nslot list -> z
 
 val valence_ok : (str * z) list -> smol -> bool
 
@@ -774,10 +1269,10 @@ val alpha : (str * z) list -> satom -> z option
 type ringq = { q_l : nat; q_r : nat; q_order : z; q_lm : n option;
                q_rm : n option }
 
-type dstate = { d_atoms : (satom * z) list; d_nbrs : slot list list;
-                d_parent : bool list; d_rings : ringq list }
+type dstate = { dg_atoms : (satom * z) list; dg_nbrs : nslot list list;
+                dg_parent : bool list; dg_rings : ringq list }
 
-val d_empty : dstate
+val dg_empty : dstate
 
 val read_Q : str list -> nat -> nat -> n * nat
 
@@ -789,11 +1284,11 @@ val dd :
   (str * z) list -> str list -> nat -> nat -> nat option -> z -> nat option
   -> dstate -> (nat * dstate) res
 
-val used : slot list -> z
+val used : nslot list -> z
 
-val set_order2 : slot list -> nat -> z -> slot list
+val set_order2 : nslot list -> nat -> z -> nslot list
 
-val ring_count : slot list -> nat
+val ring_count : nslot list -> nat
 
 val form_one : dstate -> ringq -> dstate
 
@@ -807,7 +1302,7 @@ val opt_eqb : ('a1 -> 'a1 -> bool) -> 'a1 option -> 'a1 option -> bool
 
 val satom_eqb : satom -> satom -> bool
 
-val slot_eqb : slot -> slot -> bool
+val slot_eqb : nslot -> nslot -> bool
 
 val list_eqb : ('a1 -> 'a1 -> bool) -> 'a1 list -> 'a1 list -> bool
 
